@@ -40,15 +40,17 @@ META = dict(
          "OneOrMore/ZeroOrMore, Group/Suppress/Combine/Forward/plain ParseElementEnhance, FollowedBy, Located, the SkipTo "
          "target (scan and include re-parse; the code catches only ParseException/IndexError there), the "
          "ignore-expressions run by preParse, by the repetition loop and by the pre-parse inside Or/StringStart, the real "
-         "re-parse of Or's best trial match), for all grammars, inputs, locations, flags and "
+         "re-parses Or does after its trial pass), for all grammars, inputs, locations, flags and "
          "fuels: fatal_propagates_exact (the outer call fails with the inner fatal sent through the containers' exception "
          "maps), fatal_propagates_any_depth (outer failure is fatal; class unchanged, or ParseSyntaxException when an And "
          "element behind '-' is on the path; location unchanged unless it is 0 on a non-syntax exception, which "
          "ParseElementEnhance replaces), fatal_class_preserved_without_stop, errorstop_any_depth (any failure, also a plain "
          "ParseException, of an element behind '-' in an And reached through such a path surfaces at the top as "
          "ParseSyntaxException at the same location); step_fail is the single level. PARTIAL: Each is outside the model "
-         "(oracle only); not covered by a Path constructor although the code propagates there too: Or's re-parse (with "
-         "actions) of a shorter trial match after the re-parse of the longest one failed softly.",
+         "(oracle only); the trial pass of Or is not a Path position (a fatal collected there is raised only when no "
+         "alternative matched: the two Or theorems above). The any-depth theorems speak about the transcribed parser "
+         "(memoization off); the Path hypotheses are facts about the sub-parses on the way (earlier elements matched, "
+         "earlier alternatives failed softly, ...), not decided by the theorem.",
     note="Trusted: Lean kernel; axioms propext/Classical.choice/Quot.sound; the parse model (validated differentially "
          "on every run, node attributes extracted from the live objects); the exception hierarchy "
          "(ParseSyntaxException <= ParseFatalException, ParseFatalException not <= ParseException) is re-checked against the "
